@@ -284,6 +284,30 @@ pub fn run_one(cfg : &Config, seed : u64, k : u64, stats : &mut Stats) -> Vec<Fo
         let clean_one_in = *rng.pick(&[0u64, 3, 5, 8]);
         case.ops = epoch_ops(&mut rng, &leaves, &targets, epochs, clean_one_in, Some(&[Strategy::Serial, Strategy::Reverse]));
     }
+    if epoch_mode && rng.chance(1, 3)
+    {
+        // an unrelated rule whose leaf comes and goes: some of the builds that restore and
+        // rebuild the interesting targets also report an error
+        stats.inc("c18.histories_with_failing_bystander");
+        case.rules.push(SRule{ targets : vec!["byt".to_string()], sources : vec!["bys".to_string()],
+            lines : vec![Line::Emit{ target : "byt".to_string(), salt : "".to_string(), inputs : vec!["bys".to_string()], exec : false }] });
+        case.files.push(("bys".to_string(), b"Z".to_vec()));
+        let mut present = true;
+        let mut ops = vec![];
+        for op in case.ops.drain(..)
+        {
+            if let Op::Build{ .. } = op
+            {
+                if rng.chance(1, 3)
+                {
+                    if present { ops.push(Op::Delete{ path : "bys".to_string() }); } else { ops.push(Op::Write{ path : "bys".to_string(), content : b"Z".to_vec() }); }
+                    present = !present;
+                }
+            }
+            ops.push(op);
+        }
+        case.ops = ops;
+    }
     if k < 3 * cfg.workers { stats.sample(case.to_j()); }
 
     let (mut vs, stale_seen) = run_pair_probe(&case, Some(stats));
@@ -309,6 +333,7 @@ pub fn run_one(cfg : &Config, seed : u64, k : u64, stats : &mut Stats) -> Vec<Fo
                 for l in leaves.iter()
                 {
                     if rng.chance(3, 5) { ext.ops.push(Op::Write{ path : l.clone(), content : rng.pick(&pool).clone() }); }
+                    else if rng.chance(1, 10) { ext.ops.push(Op::Delete{ path : l.clone() }); }
                 }
                 if targets.len() > 0 && rng.chance(1, 6) { ext.ops.push(Op::Clean{ goal : Some(rng.pick(&targets).clone()), sched : SchedSpec::serial() }); }
                 ext.ops.push(Op::Build{ goal : None, sched : SchedSpec::serial() });
